@@ -220,7 +220,7 @@ func runC04(p *Prog, r *Report) {
 			r.Check(kind == "NodeValue" || kind == "NodeTypeVariable", "R4.3-constructor-agreement", q, pos, "returned unchanged", kind+" is returned unfolded without a rebuild; only literals and variables may be")
 			continue
 		}
-		if fc.helper == "" {
+		if fc.helper == "" || strings.HasPrefix(fc.helper, "dedicated:") {
 			r.Undec("R4.3-constructor-agreement", q, pos, "case does not use the fold helpers in a recognisable way")
 			continue
 		}
@@ -361,6 +361,12 @@ func nonNodeFields(n *types.Named) []string {
 }
 
 func analyseFoldCase(p *Prog, info *types.Info, ti *typeSwitchInfo, cc *ast.CaseClause, kind string) *foldCase {
+	return analyseHelperCase(p, info, ti, cc, kind, "tryFold", 0)
+}
+
+// analyseHelperCase reads one case of a fold-style switch whose cases call prefix / prefix+"Binary"
+// / prefix+"Unary"; off = number of leading arguments (e.g. env) before the children.
+func analyseHelperCase(p *Prog, info *types.Info, ti *typeSwitchInfo, cc *ast.CaseClause, kind, prefix string, off int) *foldCase {
 	fc := &foldCase{kind: kind, pos: cc.Pos(), guarded: map[string]bool{}, rebuiltPos: map[string]int{}, literalArg: true}
 	// the switch variable
 	var swVar types.Object
@@ -397,23 +403,36 @@ func analyseFoldCase(p *Prog, info *types.Info, ti *typeSwitchInfo, cc *ast.Case
 	identity := false
 	for _, s := range cc.Body {
 		ret, ok := s.(*ast.ReturnStmt)
-		if !ok || len(ret.Results) != 1 {
+		if !ok || len(ret.Results) < 1 || len(ret.Results) > 2 {
 			continue
 		}
+		if len(ret.Results) == 2 {
+			if id, ok := ret.Results[1].(*ast.Ident); !ok || id.Name != "nil" {
+				continue
+			}
+		}
 		if call, ok := ast.Unparen(ret.Results[0]).(*ast.CallExpr); ok {
-			if o := calleeObj(info, call); o != nil && strings.HasPrefix(o.Name(), "tryFold") {
+			if o := calleeObj(info, call); o != nil && strings.HasPrefix(o.Name(), prefix) {
 				helperCall = call
-				fc.helper = o.Name()
+				fc.helper = "tryFold" + strings.TrimPrefix(o.Name(), prefix)
+			} else if o != nil && o.Pkg() != nil && o.Pkg().Path() == pEval {
+				fc.helper = "dedicated:" + o.Name()
 			}
 		} else if id, ok := ast.Unparen(ret.Results[0]).(*ast.Ident); ok && id.Name != "nil" {
 			identity = true
 		}
 	}
 	if helperCall == nil {
-		if identity {
+		if identity && fc.helper == "" {
 			fc.helper = "identity"
 		}
 		return fc
+	}
+	if off > 0 {
+		// drop the leading arguments
+		cp := *helperCall
+		cp.Args = helperCall.Args[off:]
+		helperCall = &cp
 	}
 	collectCtors := func(fl *ast.FuncLit) {
 		// constructors in return statements; guard detection for `if _, ok := values[0].(types.EntityUID); ok { return err }`
